@@ -52,6 +52,9 @@ type genOpts struct {
 	perturb int
 	// noFrame / noStop: the caller frames the case itself and keeps the instance alive (paired runs)
 	noFrame, noStop bool
+	// dataObjects: some tasks declare a data output (a declared data object of the process) and write it with
+	// DoWithObjects; conditions read it through getDataObject(...)
+	dataObjects bool
 	// slowPoints: schedule points at which the arriving goroutine is kept for `slowFor` while everything else runs on
 	// (e.g. a completion monitor that is slow to subscribe: whatever was started before it must wait for it)
 	slowPoints []string
@@ -62,7 +65,7 @@ func genOptsC01(idx int, tier string) genOpts {
 	o := genOpts{
 		kinds:     []string{"task", "task", "seq", "seq", "xor", "xor", "par", "par", "incl", "loop", "sub"},
 		tailCtask: true,
-		maxNodes:  14, maxDepth: 3, undeclared: true,
+		maxNodes:  14, maxDepth: 3, undeclared: true, dataObjects: true,
 	}
 	if tier == "thorough" {
 		o.maxNodes = 26
@@ -235,6 +238,10 @@ func (ge *gen) ctask(parent string) eng.Frag {
 func runProgCase(out *rec.Out, fam string, idx int, rng *rec.Rng, tier string, stats map[string]int, o genOpts) {
 	ge := &gen{g: eng.NewGraph(), rng: rng, o: o, budget: 3 + rng.Intn(o.maxNodes), vars: []string{"v0", "v1", "v2"},
 		loopTask: map[string]string{}, stats: stats}
+	if o.dataObjects && rng.Fork().Intn(3) == 0 {
+		ge.vars = append(ge.vars, "@d0")
+		stats["programs_with_data_object"]++
+	}
 	top := ge.block("", 0)
 	if o.tailCtask && rng.Intn(4) == 0 {
 		saved := ge.o.kinds
@@ -249,7 +256,9 @@ func runProgCase(out *rec.Out, fam string, idx int, rng *rec.Rng, tier string, s
 	vars := map[string]any{}
 	varsInt := map[string]int{}
 	for _, v := range ge.vars {
-		varsInt[v] = rng.Intn(3)
+		if !strings.HasPrefix(v, "@") { // a data object has no initial value
+			varsInt[v] = rng.Intn(3)
+		}
 	}
 	for i := 1; i <= ge.nloop; i++ {
 		varsInt[fmt.Sprintf("c%d", i)] = 0
@@ -354,6 +363,10 @@ func runGraphCase(out *rec.Out, fam string, g *eng.Graph, vars map[string]any, v
 		n := g.Node(q.Node)
 		for _, r := range n.Results {
 			res[r] = rng.Intn(3)
+		}
+		for _, d := range n.Outputs {
+			res["@"+d] = rng.Intn(3)
+			stats["answers_writing_data_object"]++
 		}
 		if cv, ok := loopTask[q.Node]; ok {
 			loopCount[cv]++
